@@ -237,15 +237,96 @@ def case_group(case):
                     V.add("bilinear_form/value/" + cls2, "entry (%d,%d) for label %r is %r, -cos(pi/m) = %r"
                           % (i, j, m[i][j], float(Bl[i, j]), float(B[i, j])))
 
+    # ---- which representations the API offers for this group, and how each is requested
+    diag_ok = null == 0 and clear
+    hyp_ok = clear and neg == 1 and null == 0 and pos == n - 1 and n >= 3
+    C0 = 2.0 * B
+    d = np.array([1.0 + 0.5 * i for i in range(n)])
+    C1 = (C0 * d[:, None]) / d[None, :]                 # D C D^-1: not symmetric, same cyclic products
+    sg = np.array([(-1.0) ** i for i in range(n)])
+    C2 = C0 * sg[:, None] * sg[None, :]                 # S C S, S = diag(+1,-1,+1,..): symmetric, same cyclic products
+    other = "alphanum" if case.get("style", "alpha") == "alpha" else "alpha"
+    params, pm = {}, np.zeros((n, n))
+    tvd_ok, tneg, tpos = False, 0, 0
+    if has_inf:
+        for i in range(n):
+            for j in range(i + 1, n):
+                if nm[i][j] <= 0:
+                    params[(i, j)] = -2.5 - 0.25 * (i + j)
+                    pm[i, j] = params[(i, j)]
+        # the deformed Cartan matrix (free parameters are documented for the pairs whose label is
+        # written negative; with the label written 0 the library leaves the entry at -2): diagonalised
+        # only when every infinite label is negative and the deformed form is non-degenerate
+        if all(m[i][j] < 0 for (i, j) in params):
+            Cd = C0.copy()
+            for (i, j), pv in params.items():
+                Cd[i, j] = Cd[j, i] = pv
+            evd = np.linalg.eigvalsh(Cd / 2.0)
+            if float(np.min(np.abs(evd))) > 1e-3:
+                tvd_ok, tneg, tpos = True, int(np.sum(evd < 0)), int(np.sum(evd > 0))
+
+    def scribbled_tv():
+        # the Cartan matrix handed out is the caller's as well
+        Cm = G.cartan_matrix(dict(params))
+        try:
+            Cm[...] = 99.0
+        except (TypeError, ValueError):
+            pass
+        return G.tits_vinberg_rep(dict(params))
+
+    # (kind, applicable, request, generator names of the result)
+    table = [
+        ("geometric", True, lambda: G.geometric_representation(), names),
+        ("canonical", True, lambda: G.canonical_representation(), names),
+        ("geometric-diag", diag_ok, lambda: G.geometric_representation(diagonalize=True), names),
+        ("canonical-diag", diag_ok, lambda: G.canonical_representation(diagonalize=True), names),
+        ("cartan", True, lambda: G.cartan_representation(C0.copy()), names),
+        ("cartan-nonsymmetric", True, lambda: G.cartan_representation(C1.copy()), names),
+        ("cartan-renamed", True, lambda: G.cartan_representation(C1.copy(), rename_generators=True, generator_style=other),
+         gen_names(n, other)),
+        ("cartan-signed-diag", diag_ok, lambda: G.cartan_representation(C2.copy(), diagonalize=True), names),
+        ("tits-vinberg/dict", has_inf, lambda: G.tits_vinberg_rep(dict(params)), names),
+        ("tits-vinberg/matrix", has_inf, lambda: G.tits_vinberg_rep(pm.copy()), names),
+        ("tits-vinberg-diag", tvd_ok, lambda: G.tits_vinberg_rep(dict(params), diagonalize=True), names),
+        ("tits-vinberg/after-scribble", has_inf and bool(case.get("scribble")), scribbled_tv, names),
+        ("hyperbolic", hyp_ok, lambda: G.hyperbolic_rep(), names),
+    ]
+    kinds = [k for (k, ok, _, _) in table if ok]
+    request = {k: f for (k, ok, f, _) in table if ok}
+    names_of = {k: nms for (k, ok, _, nms) in table if ok}
+    # ---- the order in which they are requested from the ONE group object
+    order = list(kinds)
+    spec = case.get("order")
+    if spec:
+        if any(k not in kinds for k in spec[1:]):
+            return {"v": V.out(), "t": t, "o": "order-n/a", "nt": False}
+        if spec[0] == "first":
+            order = [spec[1]] + [k for k in kinds if k != spec[1]]
+        elif spec[0] == "before":           # spec[1] directly before spec[2]
+            order = [k for k in kinds if k != spec[1]]
+            order.insert(order.index(spec[2]), spec[1])
+        elif spec[0] == "reversed":
+            order = kinds[::-1]
+        else:
+            raise ValueError(spec)
+    reps = {}
+    for k in order:
+        reps[k] = request[k]()
+        t += 1
+        owned(k)
+
+    def gens_of(k):
+        nms = names_of[k]
+        sgl = all(len(x) == 1 for x in nms)
+        return [mat(reps[k][W((i,), nms, sgl)]) for i in range(n)]
+    first = {k: gens_of(k) for k in kinds}
+
     # ---- geometric and canonical representation
-    geo = G.geometric_representation()
-    can = G.canonical_representation()
-    t += 2
+    geo, can = reps["geometric"], reps["canonical"]
     ggens, tt = relation_checks(V, "geometric", geo, nm, names, single, False)
     t += tt
     cgens, tt = relation_checks(V, "canonical", can, nm, names, single, True)
     t += tt
-    owned("geometric_representation,canonical_representation")
     conv = "?"
     ec = er = 0.0
     gw = {}
@@ -271,79 +352,66 @@ def case_group(case):
 
     # ---- diagonalised variants (only for a non-degenerate form: the documented target is a
     #      diagonal form with unit-modulus entries)
-    o_diag = ""
-    if null == 0 and clear:
-        D = np.diag([-1.0] * neg + [1.0] * pos)
-        geod = G.geometric_representation(diagonalize=True)
-        cand = G.canonical_representation(diagonalize=True)
-        t += 2
-        dg, tt = relation_checks(V, "geometric-diag", geod, nm, names, single, False)
+    def diag_form_checks(tag, R, nneg, npos, ref):
+        """relations, M^T D M = D for D = diag(-1 x nneg, +1 x npos), same traces as the undiagonalised
+        representation `ref` (dict word -> matrix)"""
+        nonlocal t
+        D = np.diag([-1.0] * nneg + [1.0] * npos)
+        _, tt = relation_checks(V, tag, R, nm, names, single, False)
         t += tt
+        out = {}
+        for w in words3:
+            M = mat(R[W(w, names, single)])
+            out[w] = M
+            t += 1
+            s = max(1.0, float(np.max(np.abs(M)))) ** 2
+            V.num("%s/form-preserved" % tag, float(np.max(np.abs(M.T @ D @ M - D))) / s, 1e-8,
+                  "word %r: |M^T D M - D| / |M|^2 with D = diag(-1 x %d, +1 x %d)" % (w, nneg, npos))
+            # same representation up to conjugacy: traces agree with the undiagonalised one
+            V.num("%s/conjugate-of-undiagonalised" % tag if tag != "geometric-diag" else "geometric-diag/conjugate-of-geometric",
+                  abs(float(np.trace(M) - np.trace(ref[w]))),
+                  1e-8 * scale_of([M, ref[w]]) * n, "word %r: trace differs" % (w,))
+        return out
+
+    o_diag = ""
+    if diag_ok:
+        gd = diag_form_checks("geometric-diag", reps["geometric-diag"], neg, pos, gw)
+        cand = reps["canonical-diag"]
         _, tt = relation_checks(V, "canonical-diag", cand, nm, names, single, True)
         t += tt
         for w in words3:
-            M = mat(geod[W(w, names, single)])
-            t += 1
-            s = max(1.0, float(np.max(np.abs(M)))) ** 2
-            V.num("geometric-diag/form-preserved", float(np.max(np.abs(M.T @ D @ M - D))) / s, 1e-8,
-                  "word %r: |M^T D M - D| / |M|^2 with D = diag(-1 x %d, +1 x %d)" % (w, neg, pos))
             C = mat(cand[W(w, names, single)])
             t += 1
-            want = np.linalg.inv(M).T
+            want = np.linalg.inv(gd[w]).T
             V.num("canonical-diag/dual-of-geometric", float(np.max(np.abs(C - want))), 1e-8 * scale_of([want]) ** 2,
                   "word %r" % (w,))
-        # same representation up to conjugacy: traces agree with the undiagonalised one
-        for w in words3:
-            M = mat(geod[W(w, names, single)])
-            V.num("geometric-diag/conjugate-of-geometric", abs(float(np.trace(M) - np.trace(gw[w]))),
-                  1e-8 * scale_of([M, gw[w]]) * n, "word %r: trace differs" % (w,))
-        owned("diagonalize=True")
         o_diag = "D"
 
     # ---- Cartan-matrix representations
-    C0 = 2.0 * B
-    d = np.array([1.0 + 0.5 * i for i in range(n)])
-    C1 = (C0 * d[:, None]) / d[None, :]                 # D C D^-1: not symmetric, same cyclic products
-    other = "alphanum" if case.get("style", "alpha") == "alpha" else "alpha"
-    for tag, R, nms in (
-            ("cartan", G.cartan_representation(C0.copy()), names),
-            ("cartan-nonsymmetric", G.cartan_representation(C1.copy()), names),
-            ("cartan-renamed", G.cartan_representation(C1.copy(), rename_generators=True, generator_style=other),
-             gen_names(n, other))):
-        t += 1
-        _, tt = relation_checks(V, tag, R, nm, nms, all(len(x) == 1 for x in nms), False)
+    for tag in ("cartan", "cartan-nonsymmetric", "cartan-renamed"):
+        nms = names_of[tag]
+        _, tt = relation_checks(V, tag, reps[tag], nm, nms, all(len(x) == 1 for x in nms), False)
         t += tt
-    owned("cartan_representation")
+    if diag_ok:
+        # S C S is the Cartan matrix of the geometric representation conjugated by S: same traces
+        diag_form_checks("cartan-signed-diag", reps["cartan-signed-diag"], neg, pos, gw)
     if has_inf:
-        params = {}
-        pm = np.zeros((n, n))
-        for i in range(n):
-            for j in range(i + 1, n):
-                if nm[i][j] <= 0:
-                    params[(i, j)] = -2.5 - 0.25 * (i + j)
-                    pm[i, j] = params[(i, j)]
-        for tag, R in (("tits-vinberg/dict", G.tits_vinberg_rep(dict(params))),
-                       ("tits-vinberg/matrix", G.tits_vinberg_rep(pm.copy()))):
-            t += 1
-            _, tt = relation_checks(V, tag.split("/")[0], R, nm, names, single, False)
+        tvw = None
+        for tag in ("tits-vinberg/dict", "tits-vinberg/matrix", "tits-vinberg/after-scribble"):
+            if tag not in reps:
+                continue
+            _, tt = relation_checks(V, tag.split("/")[0], reps[tag], nm, names, single, False)
             t += tt
-        if case.get("scribble"):
-            # the Cartan matrix handed out is the caller's as well
-            Cm = G.cartan_matrix(dict(params))
-            t += 1
-            try:
-                Cm[...] = 99.0
-            except (TypeError, ValueError):
-                pass
-            _, tt = relation_checks(V, "tits-vinberg", G.tits_vinberg_rep(dict(params)), nm, names, single, False)
-            t += tt + 1
-        owned("cartan_matrix,tits_vinberg_rep")
+        if tvd_ok:
+            tvw = {w: mat(reps["tits-vinberg/dict"][W(w, names, single)]) for w in words3}
+            t += len(words3)
+            diag_form_checks("tits-vinberg-diag", reps["tits-vinberg-diag"], tneg, tpos, tvw)
+            o_diag += "T"
 
     # ---- hyperbolic representation
     o_hyp = ""
-    if clear and neg == 1 and null == 0 and pos == n - 1 and n >= 3:
-        hr = G.hyperbolic_rep()
-        t += 1
+    if hyp_ok:
+        hr = reps["hyperbolic"]
         J = hyp.J(n - 1)
         hg, tt = relation_checks(V, "hyperbolic", hr, nm, names, single, False)
         t += tt
@@ -385,7 +453,19 @@ def case_group(case):
                 e2 = float(np.max(np.abs(M - w2)))
                 V.num("hyperbolic/isometries/product", min(e1, e2), 1e-8 * s, "word %r is not the product of its letters" % (w,))
         o_hyp = "H%d" % (n - 1)
-        owned("hyperbolic_rep")
+
+    # ---- every representation asked for a second time, after all the others: a representation is a
+    #      function of the group and the arguments of the request, not of what was requested before
+    for k in (kinds if case.get("repeat") else []):
+        reps[k] = request[k]()
+        t += 1
+        again = gens_of(k)
+        sc = scale_of(first[k] + again)
+        err = max(float(np.max(np.abs(a - b))) for a, b in zip(first[k], again))
+        V.num("repeat/%s" % k.split("/")[0], err, 1e-9 * sc,
+              "%s requested again at the end: generators differ from the first request (order of requests %r)" % (k, order))
+    if case.get("repeat"):
+        owned("second-requests")
 
     if caller is not None:
         if case.get("automaton"):
@@ -598,6 +678,26 @@ def redundant_cases(m, labs, mode, k=0):
             yield case
 
 
+DIAG_SOURCES = ["tits-vinberg-diag", "cartan-signed-diag"]
+DIAG_TARGETS = ["hyperbolic", "geometric-diag", "canonical-diag"]
+ORDER_KINDS = ["canonical", "geometric-diag", "canonical-diag", "cartan", "cartan-nonsymmetric", "cartan-renamed",
+               "cartan-signed-diag", "tits-vinberg/dict", "tits-vinberg/matrix", "tits-vinberg-diag", "hyperbolic"]
+ORDERS = ([None, ["reversed"]] + [["first", k] for k in ORDER_KINDS]
+          + [["before", a, b] for a in DIAG_SOURCES for b in DIAG_TARGETS])
+
+
+def order_cases(m, route, orders):
+    """the same group data, one case per order in which the representations are requested from the one
+    group object; every representation is requested a second time at the end"""
+    for o in orders:
+        for c in route_cases(m, [route]):
+            c["Lw"] = 2
+            c["repeat"] = True
+            if o is not None:
+                c["order"] = o
+            yield c
+
+
 def _wanted(ctx, name):
     only = getattr(ctx, "only", None)
     return not only or any(name.startswith(p) for p in only)
@@ -610,8 +710,9 @@ def run(ctx):
         if _wanted(ctx, name):
             ctx.product(name, fn, cases, **kw)
 
-    ctx.rule = ("one case = (Coxeter matrix, encoding of infinity, constructor route, naming style); inside it all "
-                "representations offered by the API are built and all relations / all words of length <= 3 are "
+    ctx.rule = ("one case = (Coxeter matrix, encoding of infinity, constructor route, naming style, order of requests); inside it all "
+                "representations offered by the API are requested from ONE group object (section request-order: in every enumerated order, "
+                "and a second time at the end) and all relations / all words of length <= 3 are "
                 "evaluated (rank 4 quick and rank 5: length <= 2); non-trivial = the matrix has a label other than 2; triangle cases: one (p,q,r) ordering "
                 "with one encoding of infinity")
     ctx.assume("Coxeter matrices are symmetric integer matrices, 1 on the diagonal, entries >= 2 or <= 0 (infinite); "
@@ -622,6 +723,11 @@ def run(ctx):
                "diagram is specified'; warning text 'ignoring Coxeter matrix and constructing from diagram'); the warning is suppressed")
     ctx.assume("diagonalize=True is requested only when the oracle's cosine form is non-degenerate (all |eigenvalues| "
                "> 1e-6): the documented target is a diagonal form with unit-modulus entries")
+    ctx.assume("tits_vinberg_rep(parameters, diagonalize=True) is requested only when every infinite label of the matrix is written "
+               "negative (cartan_matrix documents free parameters for those entries) and the harness's deformed symmetric Cartan matrix "
+               "has all |eigenvalues| > 1e-3; cartan_representation(S C S, diagonalize=True) only for a non-degenerate cosine form")
+    ctx.assume("a representation is a function of the group and of the arguments of the request: requested again after any other "
+               "requests to the same group object it has the same generators (1e-9 relative)")
     ctx.assume("hyperbolic_rep is requested only when the oracle's cosine form has signature (d,1), eigenvalue margin 1e-6")
     ctx.assume("'preserves the form' is accepted in either matrix convention (M^T B M = B or M B M^T = B), the same "
                "for all words; O(d,1) membership and the diagonal +-1 forms are convention independent")
@@ -685,6 +791,41 @@ def run(ctx):
                "redundant matrix": ["the diagram's", "same rank, every label different", "rank + 1", "rank - 1 (rank 3)"],
                "diagram naming": ["alpha", "alphanum", "xyz, pairs reversed"],
                "generator_style x packaging of the matrix": "rank 2: complete product; rank 3: cycled"}, chunk=16)
+    # ---- the order of the requests to one group object
+    cases = []
+    k = 0
+    for l in labs:
+        for mm in encodings(sym_matrix(2, [l])):
+            cases.extend(order_cases(mm, ROUTES[k % len(ROUTES)], ORDERS))
+            k += 1
+    for m in all_matrices(3, small if q else labs):
+        for mm in encodings(m):
+            cases.extend(order_cases(mm, ROUTES[k % len(ROUTES)], ORDERS))
+            k += 1
+    if q:
+        for m in all_matrices(3, sub):
+            if all((x in small) for r in m for x in r if x != 1):
+                continue
+            for mm in encodings(m):
+                cases.extend(order_cases(mm, ROUTES[k % len(ROUTES)], [ORDERS[1 + k % (len(ORDERS) - 1)]]))
+                k += 1
+    for m in all_matrices(4, [2, 3, 0] if q else [2, 3, 4, 0]):
+        mm = encodings(m)[-1]               # infinity written -1: the Tits-Vinberg parameters count
+        cases.extend(order_cases(mm, ROUTES[k % len(ROUTES)], [ORDERS[1 + k % (len(ORDERS) - 1)]]))
+        k += 1
+    P("request-order", "checks.c08:case_group", cases,
+      domains={"orders": "default (the order of the other sections); reversed; each kind first, then the others in default order: %r; "
+                         "%r directly before each of %r" % (ORDER_KINDS, DIAG_SOURCES, DIAG_TARGETS),
+               "kinds": "as in the other sections; tits-vinberg-diag = tits_vinberg_rep(parameters -2.5 - (i+j)/4 on the infinite pairs, "
+                        "diagonalize=True), only when every infinite label is written negative and the deformed form has |eigenvalues| > 1e-3; "
+                        "cartan-signed-diag = cartan_representation(S C S, diagonalize=True), S = diag(+1,-1,+1,..), only for a non-degenerate cosine form",
+               "second request": "after all checks every representation is requested again; generators equal those of the first request",
+               "matrices": "rank 2: labels %r x all orders; rank 3: labels %r x all orders%s; rank 4: labels %r, infinity written -1, orders cycled; "
+                           "route cycled over the 5 routes"
+                           % (labs, small if q else labs, ", the other matrices over %r with the orders cycled" % sub if q else "",
+                              [2, 3, 0] if q else [2, 3, 4, 0]),
+               "an order naming a kind the group does not have (no infinite label, degenerate form, not hyperbolic)": "trivial case"},
+      chunk=32)
     # ---- rank 4
     labs4 = [2, 3, 4, 0] if q else [2, 3, 4, 5, 6, 0]
     cases = []
